@@ -393,7 +393,7 @@ def _run_history (case, rep, w):
       # in one piece
       if held[0] is not None:
         q = held[0]; held[0] = None
-        w.run()
+        w.run(max_steps=_steps[0])
         rep.count("reads_carrying_several_messages")
         if q.aborted: q.lost = True
         mon.after_step("coalesced messages from peer %d" % q.idx)
@@ -413,7 +413,7 @@ def _run_history (case, rep, w):
       if k == "connect":
         if op[1] in mon.peers: continue
         pnew = mon.connect(op[1])
-        w.run()
+        w.run(max_steps=_steps[0])
         mon.attach(pnew)
         mon.after_step("connect")
         continue
@@ -426,7 +426,7 @@ def _run_history (case, rep, w):
           r = core.openflow.sendToDPID(d, of.ofp_echo_request(xid=77, body=body))
         except Exception:
           mon.fire("sendToDPID raises", traceback.format_exc()[-400:]); break
-        w.run()
+        w.run(max_steps=_steps[0])
         rep.count("send_probes")
         tgt = mon.registry.get(d)
         got = []
@@ -464,7 +464,7 @@ def _run_history (case, rep, w):
           # the next write by the controller fails fatally; provoke one
           p.c.send_script = ["fatal"]
           p.s.send(ofwire.enc_message("echo_request", dict(xid=3, body=b"x")))
-        w.run()
+        w.run(max_steps=_steps[0])
         mon.after_step("loss(%s)" % how)
         continue
       # k == "msg"
@@ -488,7 +488,7 @@ def _run_history (case, rep, w):
           if mon.registry.get(p.features) is not p:
             rep.count("features_replies_on_stale_connections")
           p.s.send(raw)
-          w.run()
+          w.run(max_steps=_steps[0])
           mon.after_step("second features reply from peer %d" % p.idx)
           continue
         d = DPIDS[op[3] % len(DPIDS)]
@@ -571,7 +571,7 @@ def _run_history (case, rep, w):
       if held[0] is p:
         flush()
         continue
-      w.run()
+      w.run(max_steps=_steps[0])
       if p.aborted:
         # the controller closes this connection; from now on it is gone
         p.lost = True
@@ -585,7 +585,7 @@ def _run_history (case, rep, w):
         if not p.lost:
           p.lost = True
           p.s.close()
-      w.run()
+      w.run(max_steps=_steps[0])
       core.openflow.removeListeners([])  # no-op; listeners removed below
     except Exception:
       pass
@@ -633,22 +633,22 @@ def run_sendfault (case, rep):
   c = sw_side = None
   try:
     c, sw_side = w.connect_switch_socket("sf")
-    w.run()
+    w.run(max_steps=_steps[0])
     def wrote ():
       b = bytes(sw_side.rx); sw_side.rx.clear()
       return ofwire.dec_stream(b)
     feat = ofwire.enc_message("features_reply", dict(
       xid=1, datapath_id=d, n_buffers=0, n_tables=1, capabilities=0,
       actions=0, ports=[ctl.phy_port(1), ctl.phy_port(2)]))
-    sw_side.send(ofwire.enc_message("hello", dict(xid=0))); w.run()
-    sw_side.send(feat); w.run()
+    sw_side.send(ofwire.enc_message("hello", dict(xid=0))); w.run(max_steps=_steps[0])
+    sw_side.send(feat); w.run(max_steps=_steps[0])
     bx = [m["xid"] for m in wrote() if m["name"] == "barrier_request"]
     if not bx:
       fire("handshake stalled: no barrier request after hello and the features reply",
            "send-fault scenario"); return
     barrier = ofwire.enc_message("barrier_reply", dict(xid=bx[-1]))
     if case["stage"] == "established":
-      sw_side.send(barrier); w.run()
+      sw_side.send(barrier); w.run(max_steps=_steps[0])
       if len(ups) != 1:
         fire("ConnectionUp not raised after features and barrier replies",
              "send-fault scenario (up=%d)" % len(ups)); return
@@ -667,10 +667,10 @@ def run_sendfault (case, rep):
       elif t == "echo":
         blob += ofwire.enc_message("echo_request", dict(xid=6, body=b"y"))
     sw_side.send(blob)
-    w.run()
+    w.run(max_steps=_steps[0])
     w.advance(1.0)
     # the switch notices in the end, too
-    sw_side.close(); w.run()
+    sw_side.close(); w.run(max_steps=_steps[0])
     rep.count("registry_checks")
     con = core.openflow.getConnection(d)
     if con is not None or d in core.openflow.connections:
@@ -693,7 +693,7 @@ def run_sendfault (case, rep):
       except Exception: pass
     try:
       if sw_side is not None and not sw_side.closed: sw_side.close()
-      w.run()
+      w.run(max_steps=_steps[0])
       for dd in list(core.openflow.connections.keys()): core.openflow._disconnect(dd)
     except Exception:
       pass
@@ -710,6 +710,9 @@ def gen_sendfault ():
 
 
 _world = {}
+# (scheduler cycles the driver allows before it looks: a read takes 2048
+#  octets, so megabytes of coalesced messages need more than the default)
+_steps = [2000]
 
 
 def ensure_world ():
@@ -898,6 +901,7 @@ def run (spec, rep):
     if n % 3 == 0:
       case["reclose"] = [("nexus", "msg"), ("con", "msg"), ("nexus", "disconnect"),
                          ("con", "disconnect")][(n // 3) % 4]
+    _steps[0] = 2000 + 3 * (case.get("mass") or 0)
     if case.get("mass"):
       rep.count("handshakes_with_very_many_early_port_status")
       rep.maxi("early_port_status_in_one_handshake", case["mass"])
@@ -906,4 +910,5 @@ def run (spec, rep):
 
 
 def replay (witness, rep):
+  _steps[0] = 2000 + 3 * (witness.get("mass") or 0)
   do_case(witness, rep)
